@@ -20,7 +20,9 @@ RULE = ("meshed 110/20/10 kV net (2 parallel 2W transformers, 3W transformer, 3-
         "recycle=False given by the user; 3-4 time steps with pairwise different profile values; OutputWriter requests of 1-3 "
         "(table, variable) entries as constructor 2-tuples or log_variable() entries; non-trivial = recycling active (combined "
         "flags not False) or batch reading active")
-ASSUMPTIONS = ["the Newton-Raphson solver is an oracle: 'fresh' means the cached ppc parts equal a rebuild from the tables; equality of the "
+ASSUMPTIONS = ["a time step whose Newton-Raphson iteration does not converge from the previous step's voltages, with or without recycling "
+               "(checked with a plain runpp(init='results') loop), is skipped: convergence of the solver is not part of the model",
+               "the Newton-Raphson solver is an oracle: 'fresh' means the cached ppc parts equal a rebuild from the tables; equality of the "
                "solved voltages with a fresh runpp is observed (|dV| <= 1e-7), not proved",
                "numerical equality of the batch readers (read_batch_results.py) with the per-step result extraction is differential only"]
 TRUSTED = ["recording wrapper around pandapower.timeseries.run_time_series.get_recycle_settings (module attribute, harness process only)",
@@ -251,8 +253,10 @@ def run_impl(case):
     return {"rec_col": rec_col, "comb": comb, "batch": batch, "exc": exc, "volts": volts, "outputs": outputs}
 
 
-def run_reference(case):
-    """loop of fresh power flows: write the step's values, runpp (with run_control for the tap controller), read"""
+def run_reference(case, init_results=False):
+    """loop of fresh power flows: write the step's values, runpp (with run_control for the tap controller), read.
+    init_results=True: every power flow after the first starts from the previous results (what every power flow inside a
+    time series does), used to tell solver start-vector sensitivity from a recycling error"""
     import random
     net = base_net(random.Random(case["net_seed"]))
     has_tap = any(c["kind"] == "tap" for c in case["ctrls"])
@@ -264,7 +268,10 @@ def run_reference(case):
             if c["kind"] in ("const", "other"):
                 net[c["e"]].at[0, c["v"]] = c["values"][k]
         try:
-            pp.runpp(net, run_control=has_tap, numba=False)
+            if init_results and k > 0:
+                pp.runpp(net, run_control=has_tap, numba=False, init="results")
+            else:
+                pp.runpp(net, run_control=has_tap, numba=False)
         except Exception as e:
             return None
         volts.append(volt(net))
@@ -302,6 +309,8 @@ def model_term(case):
 
 def guards(case, comb):
     """python re-implementation of the guards G12a / G12b on the input"""
+    # after the repairs (ConstControl.set_recycle, batch eligibility per variable, get_batch_outputs) none of the four recorded
+    # failures is expected any more; the classification keys are kept so that a regression is reported under its old name
     line = any(c["kind"] == "const" and not c["user_off"] and c["e"] == "line" and c["v"] in LINE_PF for c in case["ctrls"])
     tins = any(c["kind"] == "const" and not c["user_off"] and c["e"] in ("trafo", "trafo3w") and c["v"] == "in_service" for c in case["ctrls"])
     elig = comb is not None and not comb[0] and all((not lg) and t in KEYS for t, v, lg in case["logs"])
@@ -325,6 +334,12 @@ def evaluate(ctx, case, mod):
     desc = {k: case[k] for k in ("n", "ctrls", "logs", "net_seed")}
     if ref is None:
         ctx.count("reference_power_flow_failed")
+        return
+    if impl["exc"] == "LoadflowNotConverged" and run_reference(case, init_results=True) is None:
+        # Newton-Raphson started from the previous step's voltages does not converge on this input even without any
+        # recycling: solver convergence is an oracle (ASSUMPTIONS), nothing to compare
+        ctx.count("solver_diverges_from_previous_results_skipped")
+        ctx.case(desc, nontrivial=False)
         return
     fresh = []
     for k in range(case["n"]):
@@ -394,10 +409,10 @@ def run(ctx):
     forced += [("line", "length_km"), ("line", "max_i_ka"), ("trafo", "tap_pos")]
     for p in forced:
         cases.append(gen_case(rng, dom, forced=p))
-    for k in range(ctx.n(75, 800)):
+    for k in range(ctx.n(50, 800)):
         cases.append(gen_case(rng, dom))
     terms = [model_term(c) for c in cases]
-    model = ctx.coq_eval("c12", "C12.Model", terms, shard=40)
+    model = ctx.coq_eval("c12", "C12.Model", terms, shard=40, timeout=1200)
     for case, mod in zip(cases, model):
         evaluate(ctx, case, mod)
     ctx.extra["domain_pairs_in_net"] = len(dom)
